@@ -181,6 +181,17 @@ class ExecS(Exec):
                 raise Unsupported("unpacking arity mismatch")
             for t, x in zip(target.elts, items):
                 self.assign(t, x, st, node)
+        elif isinstance(target, ast.Attribute) and isinstance(target.value, ast.Subscript) and \
+                isinstance(self.ev(target.value.value, st, spec=True), CArr) and \
+                isinstance(self.ev(target.value.value, st, spec=True).arr, dict):
+            # column[i].field = v : store into that field's array only
+            arrv = self.ev(target.value.value, st)
+            idx = self.ev(target.value.slice, st)
+            i = arrv.off + zint(idx)
+            self.oblige(f"bounds.{arrv.name}", "bounds", st, z3.And(0 <= i, i < arrv.n), node)
+            arr = dict(arrv.arr)
+            arr[target.attr] = z3.Store(arr[target.attr], i, zint(v))
+            self.store_carr(target.value.value, CArr(arr, arrv.n, arrv.off, arrv.name), st, node)
         elif isinstance(target, ast.Attribute):
             base = self.ev(target.value, st)
             if isinstance(base, Opt):
